@@ -13,7 +13,7 @@
                             find     FindPeers called   (id, ns, dl = deadline of its context, ottl / olim, peers returned)
                             findend  the channel of search id was closed (or the call failed)
                             dial     host.Connect(p) called (addrs = number of addresses handed over)
-                            sample   EnoughPeers(t, 0..4) for every topic, read inside the event loop (kind pre: 100 ms before a poll; end: end of step)
+                            sample   EnoughPeers(t, 0..7) for every topic, read inside the event loop (kind pre: 100 ms before a poll; end: end of step)
                             ready    the readiness function of publish m was evaluated (res; direct = EnoughPeers(topic, n) at that moment)
                             val      message m entered local validation (= it is being published)
                             pubctx   the context of publish m ended;   pubret  Publish m returned (err)
@@ -43,12 +43,13 @@ EmptyF == [x \in {} |-> 0]
 Put(f, k, v) == [x \in DOMAIN f \cup {k} |-> IF x = k THEN v ELSE f[x]]
 MeshProtos == {"/meshsub/1.0.0", "/meshsub/1.1.0", "/meshsub/1.2.0", "/meshsub/1.3.0"}
 
+MaxSugg == 7     \* EnoughPeers is sampled for the suggested sizes 0..MaxSugg
 NoAdvM == [on |-> FALSE, g |-> 0, due |-> -1, cx |-> -1]
 NoFind == [id |-> 0, start |-> -1]
 S0 == [subs |-> [t \in Topics |-> 0], relays |-> [t \in Topics |-> 0], joined |-> {},
        adv |-> [t \in Topics |-> NoAdvM], gt |-> EmptyF, deadg |-> {},
        find |-> [t \in Topics |-> NoFind], lastStart |-> [t \in Topics |-> -1], lastEnd |-> [t \in Topics |-> -1], apiAt |-> [t \in Topics |-> -1],
-       en |-> [t \in Topics |-> <<FALSE, FALSE, FALSE, FALSE, FALSE>>], sampled |-> FALSE,
+       en |-> [t \in Topics |-> [k \in 1..(MaxSugg + 1) |-> FALSE]], sampled |-> FALSE, apiPre |-> TRUE,
        polled |-> -1, pubs |-> EmptyF, dials |-> EmptyF, exp |-> {},
        shut |-> FALSE, shutAt |-> -1, factory |-> 0, viol |-> {}, drift |-> {}]
 
@@ -92,10 +93,10 @@ Stim(S, t0) ==
         t == E.tp
     IN
     CASE a = "subscribe" ->
-           LET S1 == [S EXCEPT !.joined = @ \cup {t}, !.subs[t] = @ + 1, !.apiAt[t] = t0]
+           LET S1 == [S EXCEPT !.joined = @ \cup {t}, !.subs[t] = @ + 1, !.apiAt[t] = t0, !.apiPre = S.find[t].id # 0 \/ S.lastEnd[t] = t0]
            IN  IF cf.disc /\ ~IntOn(S, t) THEN StartInterest(S1, t, t0) ELSE S1
       [] a = "relay" ->
-           LET S1 == [S EXCEPT !.joined = @ \cup {t}, !.relays[t] = @ + 1, !.apiAt[t] = t0]
+           LET S1 == [S EXCEPT !.joined = @ \cup {t}, !.relays[t] = @ + 1, !.apiAt[t] = t0, !.apiPre = S.find[t].id # 0 \/ S.lastEnd[t] = t0]
            IN  IF cf.disc /\ ~IntOn(S, t) THEN StartInterest(S1, t, t0) ELSE S1
       [] a = "cancel" /\ S.subs[t] > 0 ->
            LET S1 == [S EXCEPT !.subs[t] = @ - 1]
@@ -321,11 +322,14 @@ EndChecks(S) ==
                      ELSE IF (cf.disc /\ ~waiting) \/ (~cf.disc /\ ~nodisc) THEN {V("P_X06_e", "bootstrap-stuck", P.t, m, now, P.last, 0)}
                      ELSE {}
                  : m \in run}
+        \* X06.c: Subscribe / Relay ask for a search of the topic (Topic.Subscribe / Topic.Relay call Discover first)
+        vs == IF cf.disc /\ ~S.shut /\ E.a \in {"subscribe", "relay"} /\ ~S.apiPre /\ S.lastStart[E.tp] # S.apiAt[E.tp]
+                THEN {V("P_X06_c", "subscribe-without-search", E.tp, "", now, S.lastStart[E.tp], S.apiAt[E.tp])} ELSE {}
         vh == IF S.shut /\ nfind # 0 THEN {V("P_X06_h", "search-in-flight-after-shutdown", "", "", now, nfind, 0)} ELSE {}
         vd == IF E.i = 1 /\ cf.custom /\ S.factory # 1 THEN {V("P_X06_d", "connector-factory", "", "", now, S.factory, 1)} ELSE {}
         \* notes
         dr == (IF SeqSet(E.pend) # run THEN {V("drift", "pending-set", "", "", now, 0, 0)} ELSE {})
-    IN  [S EXCEPT !.viol = @ \cup va \cup vg \cup ve \cup vh \cup vd, !.drift = @ \cup dr]
+    IN  [S EXCEPT !.viol = @ \cup va \cup vg \cup ve \cup vh \cup vd \cup vs, !.drift = @ \cup dr]
 
 \* X06.f on the snapshot of the quiescent point
 FactOf(t) == CHOOSE f \in SeqSet(E.facts) : f.t = t
@@ -342,7 +346,7 @@ Relation(S) ==
           ex(n) == CASE cf.router = "floodsub"  -> EnoughFlood(f.has, np, n, cf.FloodSize)
                      [] cf.router = "randomsub" -> EnoughRandom(f.has, fsR, rsR, n, cf.RandomSubD)
                      [] OTHER                   -> EnoughGossip(f.has, fsG, me, n, cf.Dlo, cf.Dhi)
-      IN  {V("P_X06_f", "enough-peers-relation", t, "", E.t, n, IF ex(n) THEN 1 ELSE 0) : n \in {k \in 0..4 : S.en[t][k + 1] # ex(k)}}
+      IN  {V("P_X06_f", "enough-peers-relation", t, "", E.t, n, IF ex(n) THEN 1 ELSE 0) : n \in {k \in 0..MaxSugg : S.en[t][k + 1] # ex(k)}}
       : t \in Topics}
 
 Report(tag, v) == PrintT(<<tag, ToJson([pred |-> v.pred, kind |-> v.kind, scn |-> E.scn, i |-> E.i, a |-> E.a, tp |-> v.tp,
